@@ -106,6 +106,9 @@ def enum_pencils(tier, seed):
         for v in lattice(3, 1) + [(2, 3, 1), (3, -1, 2)]:
             if X.irank([list(ab[0]), list(ab[1]), list(v)]) == 3:
                 yield (ab, v)
+        # complex vertices: the circular points I, J (v.v = 0), an isotropic finite point, a generic complex point
+        for v in ([[0, -1], 1, 0], [[0, 1], 1, 0], [[0, 1], 0, 1], [[1, 1], 2, 1], [1, [0, 1], 0]):
+            yield (ab, v)
 
 
 @family("C11", "pencils_and_from_point", enum_pencils)
@@ -114,12 +117,18 @@ def case_pencils(ctx, cfg):
 
     (a, b), v = cfg
     tuples, want = finite_tuples()
-    vert = G.Point(np.array(v, dtype=float))
+    is_complex = any(isinstance(x, (list, tuple)) for x in v)
+    vv = np.array([complex(x[0], x[1]) if isinstance(x, (list, tuple)) else x for x in v])
+    if is_complex and abs(np.linalg.det(np.array([a, b, vv], dtype=complex))) < 1e-12:
+        ctx.skipped += 1
+        return
+    vert = G.Point(vv if is_complex else np.array(v, dtype=float))
+    v = tuple(tuple(x) if isinstance(x, (list, tuple)) else x for x in v)
     cols = [G.PointCollection(np.array([pt_on(a, b, t[k]) for t in tuples], dtype=float)) for k in range(4)]
     base = hash(("pencil", tuple(a), tuple(b), tuple(v)))
     ctx.states.update(hash((base, i)) for i in range(len(tuples)))
     ctx.nontrivial.update(hash((base, i)) for i in range(len(tuples)))
-    kind = "vertex-at-origin" if tuple(v[:2]) == (0, 0) else "vertex-on-axis" if 0 in v[:2] and v[2] != 0 else "vertex-at-infinity" if v[2] == 0 else "vertex-generic"
+    kind = ("vertex-complex-isotropic" if abs(vv @ vv) < 1e-12 else "vertex-complex") if is_complex else "vertex-at-origin" if tuple(v[:2]) == (0, 0) else "vertex-on-axis" if 0 in v[:2] and v[2] != 0 else "vertex-at-infinity" if v[2] == 0 else "vertex-generic"
     ctx.tally(kind)
     inputs = {"a": a, "b": b, "vertex": v}
     # four points seen from a fifth
